@@ -8,6 +8,8 @@
   C02-LIMITPD    LimitPushdown moves a LIMIT only below operators in {Project}
   C02-OUTER      in LEFT / LEFT MARK join arms no filter is added to the pushdown used for the right
                  child, and filters for the left child are guarded by side == Left
+  C02-GSETS      pushdown below an Aggregate: the grouping-set membership test of the filter's columns is under
+                 Iterator::all at every closure level (all grouping sets × all referenced columns)
   (C02-CASTFLAT = C13-FLAT, C02-LIKE = C20-LIKE, C02-SCANF = C11-FRAME are evaluated here too)
 Not decided: that a rewritten plan computes the same rows; join reordering; column pruning indices."""
 from .framework import RuleResult
@@ -378,9 +380,65 @@ def rule_outer(facts):
     return r
 
 
+def rule_gsets(facts):
+    """Filter pushdown below an Aggregate: with GROUPING SETS / ROLLUP / CUBE a filter on a grouping column may move below the
+    aggregate only if *every* grouping set contains every referenced column (a set that omits the column still emits its
+    super-aggregate row, computed over the unfiltered input). Decided on the quantifier structure: every closure enclosing the
+    grouping-set membership test is consumed by Iterator::all (never any / find / position / filter)."""
+    r = RuleResult("C02-GSETS", "pushdown_aggregate: the grouping-set membership test is universally quantified at every level "
+                   "(Iterator::all over grouping sets and over referenced columns)", floor=1)
+    root = FP + "::pushdown_aggregate"
+    recs = {rec["id"]: rec for rec in facts.fns_matching(lambda i: i.startswith(root))}
+    if root not in recs:
+        r.missing_anchor("FilterPushdown::pushdown_aggregate")
+        return r
+    sites = []
+    for fid, rec in recs.items():
+        fn = Fn(rec)
+        for c in fn.calls():
+            if c.name.endswith("BTreeSet::<T, A>::contains") or c.name.endswith("BTreeSet::<T, A>::is_subset") \
+                    or c.name.endswith("BTreeSet::<T, A>::is_superset"):
+                sites.append((fn, rec, c))
+    if not sites:
+        r.missing_anchor("grouping-set membership test (BTreeSet::contains) in pushdown_aggregate")
+        return r
+    for fn, rec, c in sites:
+        r.functions.add(fn.id)
+        r.call_sites += 1
+        chain, bad, cur = [], None, fn.id
+        while cur != root:
+            parent_id = cur.rsplit("::{closure", 1)[0]
+            prec = recs.get(parent_id)
+            if prec is None:
+                bad = f"enclosing function {parent_id} not found"
+                break
+            pf = Fn(prec)
+            consumer = None
+            for b, i, pl, rv, ln in pf.assigns():
+                if rv[0] == "agg" and rv[1][0] == "closure" and rv[1][1] == cur and not pl[1]:
+                    for cc in pf.calls():
+                        if any(a[0] in ("c", "m") and a[1][0] == pl[0] for a in cc.args):
+                            consumer = cc
+            if consumer is None:
+                bad = f"closure {cur} is not passed directly to an iterator adaptor"
+                break
+            nm = consumer.name.rsplit("::", 1)[-1]
+            chain.append(nm)
+            if nm != "all":
+                bad = (f"the membership test is quantified by Iterator::{nm} at line {consumer.line}, not by Iterator::all: a filter column that is "
+                       "missing from some grouping set would still be pushed below the aggregate (extra super-aggregate rows)")
+                break
+            cur = parent_id
+        r.inst({"fn": fn.id, "test": c.name.rsplit("::", 1)[-1], "quantifiers": chain}, bad is None)
+        if bad:
+            r.violate(fn.id, "grouping-set-quantifier", bad, rec["file"], c.line)
+    return r
+
+
 def run(ctx):
     facts = ctx["facts"]
-    res = [rule_vol_fold(facts), rule_vol_cse(facts), rule_vol_exists(facts), rule_limit(facts), rule_limitpd(facts), rule_outer(facts)]
+    res = [rule_vol_fold(facts), rule_vol_cse(facts), rule_vol_exists(facts), rule_limit(facts), rule_limitpd(facts), rule_outer(facts),
+           rule_gsets(facts)]
     # shared clauses
     from . import c13
     res.append(c13.rule_flat(facts))
